@@ -12,25 +12,14 @@ Fixpoint chainb (a b : nat) (l : list tree) : bool :=
   | t :: r => Nat.eqb (t_from t) a && chainb (t_to t) b r
   end.
 
-(* Where the text of a node must start.  [relax = false]: at its From (the
-   property).  [relax = true] tolerates exactly the recorded Redir defect: a
-   Redir node whose first child is a Compound (an explicit left operand) has
-   the text of the range after that child. *)
-Definition text_from (relax : bool) (t : tree) : nat :=
-  match t with
-  | T k _ f _ _ (T k1 _ _ e1 _ _ :: _) =>
-    if relax && N.eqb k KRedir && N.eqb k1 KCompound then e1 else f
-  | T _ _ f _ _ [] => f
-  end.
-
 (* every node: range inside the source, text = slice, children tile it *)
-Fixpoint wfb (relax : bool) (src : bytes) (t : tree) : bool :=
+Fixpoint wfb (src : bytes) (t : tree) : bool :=
   match t with
   | T k a f e x ch =>
     Nat.leb f e && Nat.leb e (length src)
-    && bytes_eqb x (slice src (text_from relax t) e)
+    && bytes_eqb x (slice src f e)
     && match ch with [] => true | _ => chainb f e ch end
-    && forallb (wfb relax src) ch
+    && forallb (wfb src) ch
   end.
 
 (* concatenation of the leaves' texts *)
@@ -53,10 +42,8 @@ Definition lossless (src : bytes) (t : tree) (errs : list perr) : bool :=
   && (Nat.eqb (t_to t) (length src)
       || existsb (fun e => Nat.eqb (e_from e) (t_to t)) errs).
 
-Definition check_C01_gen (relax : bool) (src : bytes) (t : tree) (errs : list perr) : bool :=
-  wfb relax src t && lossless src t errs && forallb (err_in_range src) errs.
-
-Definition check_C01 := check_C01_gen false.
+Definition check_C01 (src : bytes) (t : tree) (errs : list perr) : bool :=
+  wfb src t && lossless src t errs && forallb (err_in_range src) errs.
 
 (* ---- the case: what parse.Parse returned for [c_src] ---- *)
 Record case := mkCase {
@@ -64,8 +51,6 @@ Record case := mkCase {
   c_etree : etree;     (* encoded observation, see C01_Parse.decode_tree *)
   c_eerrs : list eperr;
   c_print : list N;    (* the runes >= 0x80 of the input that unicode.IsPrint accepts *)
-  c_relax : bool;      (* judge with the recorded Redir defect tolerated (the same input
-                          is also emitted unrelaxed under its own narrow class) *)
   c_cmp : bool         (* compare with the model *)
 }.
 
@@ -75,7 +60,7 @@ Definition c_errs (c : case) : list perr := map decode_err (c_eerrs c).
 Definition errs_eqb : list perr -> list perr -> bool := list_eqb perr_eqb.
 
 Definition judge1 (c : case) : N :=
-  code (check_C01_gen (c_relax c) (c_src c) (c_tree c) (c_errs c))
+  code (check_C01 (c_src c) (c_tree c) (c_errs c))
        (negb (c_cmp c)
         || match parse_model (print_table (c_print c)) (c_src c) with
            | Some (t, es) => tree_eqb t (c_tree c) && errs_eqb es (c_errs c)
